@@ -1,11 +1,11 @@
 from pyvc import runner
-from contracts import messages, codecs, packets
+from contracts import messages, codecs, packets, partial
 
 PID = 'C20'
 
 
 def items():
-    return messages.scenarios() + [s for s in packets.scenarios() if PID in s.props]
+    return messages.scenarios() + [s for s in packets.scenarios() + partial.scenarios() if PID in s.props]
 
 
 def run(tier='quick', seed=0, only=None):
